@@ -211,6 +211,7 @@ Proof.
       * apply ender2_wrap; exact Ea.
       * apply wrap_nonnil; exact Nb.
       * apply wrap_nonnil; exact Na.
+      * apply dbal_wrap. apply render_dbal.
     + apply ender2_mid; [apply wrap_nonnil; exact Nb|apply ender2_wrap; exact Eb].
     + apply starter_app. apply starter_wrap. exact Sta.
     + apply app_nonnil. apply wrap_nonnil. exact Na.
@@ -224,16 +225,18 @@ Proof.
     unfold midcond in Hm. split_and Hm. apply Nat.leb_le in Hm.
     repeat split.
     + change (rank (ECond lq lc e1 e2 e3)) with 14.
-      eapply Sx_cond; [exact Wc|exact Sa|exact Wb| | | | | | |].
+      eapply Sx_cond; [exact Wc|exact Sa|exact Wb| | | | | | | |].
       * pose proof (wrapped_rank e1 P_LOR). unfold P_LOR in *. lia.
       * unfold rank. unfold P_ASG in Hm. lia.
       * pose proof (wrapped_rank e3 P_ASG). unfold P_ASG in *. lia.
       * intros E. apply orb_true_iff in Hm3. destruct Hm3 as [H|H].
         -- apply negb_true_iff in H. apply Nat.eqb_neq in H. unfold rank, P_ASG in *. destruct (prec_range e2). lia.
-        -- apply negb_true_iff in H. exact H.
+        -- apply negb_true_iff in H. destruct (topq (render e2)) eqn:Et; [|reflexivity].
+           rewrite (topq_hasq _ 0 Et) in H. discriminate.
       * exact Sta.
       * apply wrap_nonnil; exact Nc.
       * apply wrap_nonnil; exact Nb.
+      * apply dbal_wrap. apply render_dbal.
     + apply ender2_mid; [intro H0; apply app_eq_nil in H0; destruct H0 as [_ H0]; discriminate|]. apply (ender2_mid (render e2)); [apply wrap_nonnil; exact Nb|apply ender2_wrap; exact Eb].
     + apply starter_app. apply starter_wrap. exact Stc.
     + apply app_nonnil. apply wrap_nonnil. exact Nc.
